@@ -81,9 +81,11 @@ def h_antiderivative(ex):
         F = f(P.dual(z), beta, ice, deep=deep)
         ex.equal(P.tangent(F) * scale, want * scale, label)
     else:
-        h = 1e-4
+        # the closed forms cancel heavily in float (F ~ 1e3-1e4 from terms that nearly cancel):
+        # a central difference needs a step large enough to stay above that noise
+        h = 0.05
         dF = (float(f(z + h, beta, ice, deep=deep)) - float(f(z - h, beta, ice, deep=deep))) / (2 * h)
-        ex.close(dF * scale, want * scale, label, tol=1e-6)
+        ex.close(dF * scale, want * scale, label, tol=1e-4)
 
 
 def h_uniform_correction(ex):
